@@ -30,7 +30,7 @@ MIN_EVENTS = {
     "quick": {"project_by_dykstra/feasible-unchanged": 40, "project_by_dykstra/bounded-progress": 40,
               "project_by_dykstra/idempotent": 40, "project_by_dykstra/nearest-point": 25,
               "_project_partial/exact-group-projection": 300, "LatticeConstraints(N=1000)/near-nearest-point": 5,
-              "project_all_constraints/nearest-point": 20, "project_all_constraints/feasible-unchanged": 20},
+              "project_all_constraints/nearest-point": 8, "project_all_constraints/feasible-unchanged": 20},
     "thorough": {"project_by_dykstra/feasible-unchanged": 1200, "project_by_dykstra/bounded-progress": 1200,
                  "project_by_dykstra/idempotent": 1200, "project_by_dykstra/nearest-point": 700,
                  "_project_partial/exact-group-projection": 10000, "LatticeConstraints(N=1000)/near-nearest-point": 150,
